@@ -3,6 +3,7 @@
 package main
 
 import (
+	"sync"
 	"fmt"
 	"net"
 	"os"
@@ -36,10 +37,31 @@ func canBind(kind string, port int) bool {
 	}
 	l, err := net.Listen("tcp", fmt.Sprintf("127.0.0.1:%d", port))
 	if err != nil {
-		return false
+		// a connection of the closed listener that is in TIME_WAIT (the listener had no SO_REUSEADDR) also refuses the
+		// bind: that is no open socket of the proxy.  Decide by the kernel's socket table: is anything LISTENing there?
+		return !tcpListening(port)
 	}
 	l.Close()
 	return true
+}
+
+func tcpListening(port int) bool {
+	for _, f := range []string{"/proc/net/tcp", "/proc/net/tcp6"} {
+		b, err := os.ReadFile(f)
+		if err != nil {
+			continue
+		}
+		for _, ln := range strings.Split(string(b), "\n")[1:] {
+			fs := strings.Fields(ln)
+			if len(fs) < 4 {
+				continue
+			}
+			if strings.HasSuffix(fs[1], fmt.Sprintf(":%04X", port)) && fs[3] == "0A" {
+				return true
+			}
+		}
+	}
+	return false
 }
 
 func modeC18() {
@@ -160,9 +182,37 @@ func modeC18() {
 	for _, lst := range all18 {
 		in.send(lst, "", mkq(uniq()+".r0t60d0.z1.test."), 3*time.Second, nil)
 	}
-	t0 := time.Now()
+	// queries in flight on every listener when Close is called: the upstream never answers them
+	var inflMu sync.Mutex
+	var inflWG sync.WaitGroup
+	inflLate := []string{}
+	var t0 time.Time
+	for _, lst := range all18 {
+		lst := lst
+		inflWG.Add(1)
+		go func() {
+			defer inflWG.Done()
+			w := mkq(uniq() + ".r0t60d0fS.z1.test.").wire()
+			wait := 9 * time.Second
+			dgram := lst == "udp" || lst == "udpth" // nothing tells a datagram client that its query is over
+			if dgram {
+				wait = 2 * time.Second
+			}
+			in.roundTrip(lst, "", w, wait, nil)
+			inflMu.Lock()
+			if !dgram && !t0.IsZero() && time.Since(t0) > 3*time.Second {
+				inflLate = append(inflLate, lst)
+			}
+			inflMu.Unlock()
+		}()
+	}
+	time.Sleep(500 * time.Millisecond)
+	inflMu.Lock()
+	t0 = time.Now()
+	inflMu.Unlock()
 	cerr := in.vr.Close()
 	dur := int(time.Since(t0) / time.Millisecond)
+	inflWG.Wait()
 	// no listening socket is left when Close has returned: every address can be bound again at once
 	nowBound := []string{}
 	for _, lst := range append([]string{"metrics"}, all18...) {
@@ -197,5 +247,5 @@ func modeC18() {
 	insts = nil
 	instMu.Unlock()
 	time.Sleep(100 * time.Millisecond)
-	tr.Emit("rclose", "dur", dur, "panic", ps, "rebound", rebound, "stillbound", notRebound, "boundatreturn", nowBound, "fds", sockFDs(), "basefds", base)
+	tr.Emit("rclose", "dur", dur, "panic", ps, "rebound", rebound, "stillbound", notRebound, "boundatreturn", nowBound, "infllate", inflLate, "fds", sockFDs(), "basefds", base)
 }
